@@ -44,7 +44,10 @@ def main(argv):
     except ValueError:
         seed = 0
     mod = importlib.import_module("props." + prop.lower())
-    return runner.run(mod, tier, seed)
+    try:
+        return runner.run(mod, tier, seed)
+    finally:
+        core.cleanup_run_dirs()
 
 
 if __name__ == "__main__":
